@@ -18,14 +18,27 @@ Leaves ==
   {[op |-> "asset", name |-> n, rng |-> r] : n \in {"S1", "S2"}, r \in Rngs}
   \cup {[op |-> "as", name |-> n, rng |-> r] : n \in {"A1", "A2"}, r \in Rngs}
   \cup {[op |-> "rset", name |-> "R1", rng |-> r] : r \in RsRngs}
-  \cup {[op |-> "fset", name |-> "F1"]}
+  \cup {[op |-> "fset", name |-> "F1"], [op |-> "fset", name |-> "F2"]}
   \cup {[op |-> "lit", atoms |-> a, rng |-> r] : a \in {{P8}, {P9a, V32}}, r \in Rngs}
 FltOpts == {[op |-> "asset", name |-> "S1", rng |-> NoRange],
             [op |-> "and", l |-> [op |-> "asset", name |-> "S2", rng |-> NoRange], r |-> [op |-> "rset", name |-> "R1", rng |-> NoRange]],
             [op |-> "or", l |-> [op |-> "as", name |-> "A3", rng |-> <<9, 10>>], r |-> [op |-> "rset", name |-> "R1", rng |-> NoRange]]}
+(* a second filter-set built on the first: an expression may reach the same filter-set along several paths     *)
+F2Opts == {[op |-> "and", l |-> [op |-> "fset", name |-> "F1"], r |-> [op |-> "asset", name |-> "S2", rng |-> NoRange]],
+           [op |-> "or", l |-> [op |-> "fset", name |-> "F1"], r |-> [op |-> "rset", name |-> "R1", rng |-> NoRange]],
+           [op |-> "as", name |-> "A1", rng |-> NoRange]}
+(* expressions in which one name occurs more than once (shared building blocks, not cycles) *)
+F1 == [op |-> "fset", name |-> "F1"]  F2 == [op |-> "fset", name |-> "F2"]
+S(n) == [op |-> "asset", name |-> n, rng |-> NoRange]
+Shared == {[op |-> "or", l |-> F1, r |-> F1],
+           [op |-> "or", l |-> [op |-> "and", l |-> F1, r |-> S("S1")], r |-> [op |-> "and", l |-> F1, r |-> S("S2")]],
+           [op |-> "or", l |-> F2, r |-> F1], [op |-> "or", l |-> F1, r |-> F2], [op |-> "and", l |-> F2, r |-> F2],
+           [op |-> "or", l |-> S("S1"), r |-> [op |-> "and", l |-> S("S1"), r |-> S("S2")]],
+           [op |-> "andnot", l |-> [op |-> "or", l |-> S("S1"), r |-> S("S2")], r |-> [op |-> "lit", atoms |-> {P9a}, rng |-> NoRange]],
+           [op |-> "or", l |-> [op |-> "rset", name |-> "R1", rng |-> NoRange], r |-> [op |-> "rset", name |-> "R1", rng |-> <<10, 11>>]]}
 (* a filter-set that refers to itself is not a meaningful database (the real evaluator recurses forever on it); not generated *)
 ASSUME PrintT(<<"GEN", ToJson([routeChoices |-> RouteChoices, s1 |-> S1Opts, s2 |-> S2Opts, r1 |-> R1Opts, r2 |-> R2Opts,
-                               leaves |-> Leaves, ops |-> {"and", "or", "andnot"}, flt |-> FltOpts])>>)
+                               leaves |-> Leaves, ops |-> {"and", "or", "andnot"}, flt |-> FltOpts, flt2 |-> F2Opts, shared |-> Shared])>>)
 VARIABLE dummy
 Spec == dummy = 0 /\ [][dummy' = dummy]_dummy
 =============================================================================
